@@ -37,6 +37,7 @@ def check(model: Model, run: Run) -> None:
     progress_rule(model, run)
     # ---- recursion: no value is descended into twice by one frame --------------------------
     double_descent(model, run)
+    error_text_growth(model, run)
 
 
 E4_FIXTURE = '''
@@ -235,6 +236,43 @@ def double_descent(model: Model, run: Run) -> None:
                 run.fail(Finding("E4-no-double-descent", q, f"{norm(c1)[:50]} -> {norm(c2)[:50]}",
                                  f"{fi.name} is part of the recursive group {[x.split('.')[-1] for x in comp]}: the value produced by the recursive call `{norm(c1)[:60]}` "
                                  f"is descended into again by `{norm(c2)[:60]}` in the same frame; each nesting level doubles the work (2^depth)", model.loc(fi.module, c2)))
+
+
+def error_text_growth(model: Model, run: Run) -> None:
+    """E5: an error that is re-raised from a recursive frame with the caught error's text inside its own message, by a class
+    whose __str__ also appends the text of __cause__ / __context__, contains that text twice: its size doubles with every level
+    of nesting (2^depth characters are built, eagerly, for a few dozen input characters)."""
+    from .c05 import may_raise
+    mr = may_raise(model)
+    _, sites, comps = _recursive_components(model, mr)
+    rec = {q for c in comps for q in c}
+    chained = set()
+    for q, c in model.classes.items():
+        m_ = c.methods.get("__str__") or c.methods.get("__repr__")
+        if m_ is not None and any(isinstance(x, ast.Attribute) and x.attr in ("__cause__", "__context__") for x in ast.walk(m_.node)):
+            chained.add(q)
+    run.coverage["exception_classes_rendering_their_cause"] = sorted(x.split(".")[-1] for x in chained)
+    n = 0
+    for q in sorted(rec):
+        fi = model.functions.get(q)
+        if fi is None or isinstance(fi.node, ast.Lambda):
+            continue
+        for h in [x for x in walk_no_nested(fi.node) if isinstance(x, ast.ExceptHandler) and x.name]:
+            for r in [x for x in ast.walk(h) if isinstance(x, ast.Raise) and isinstance(x.exc, ast.Call)]:
+                n += 1
+                cq = model.resolve_name(fi.module, norm(r.exc.func))
+                texts = [a for a in list(r.exc.args) + [k.value for k in r.exc.keywords]
+                         if isinstance(a, (ast.JoinedStr, ast.BinOp)) or (isinstance(a, ast.Call) and norm(a.func).split(".")[-1] in ("str", "repr", "format"))]
+                embeds = any(isinstance(y, ast.Name) and y.id == h.name for a in texts for y in ast.walk(a))
+                renders_cause = cq in model.classes and any(k in chained for k in model.classes[cq].mro)
+                bad = embeds and renders_cause
+                run.ob("E5-error-text-does-not-double", not bad, {"function": q.split("sansldap.")[-1], "raise": norm(r)[:60]})
+                if bad:
+                    run.fail(Finding("E5-error-text-does-not-double", q, norm(r.exc)[:80],
+                                     f"{fi.name} is recursive and re-raises {cq.split('.')[-1]} with the caught error's text inside the new message, while "
+                                     f"{cq.split('.')[-1]}.__str__ appends the text of its cause as well: every nesting level doubles the text", model.loc(fi.module, r)))
+    run.coverage["re_raises_in_recursive_functions"] = n
+    run.ob("E5-error-text-does-not-double", True, {"re_raises_examined": n}) if n == 0 else None
 
 
 def ambiguity(model: Model, run: Run, rule: str, only_module, floor_sites: int, floor_patterns: int) -> None:
